@@ -197,3 +197,81 @@ def cantilever(env, ny):
         sc = max(np.abs(cf).max(), 1e-300)
         env.eq("C10", "closed-form cantilever displacements satisfy the equilibrium rows of every free node exactly (nodal exactness)",
                disp[:ny] / sc * 1e3, cf / sc * 1e3)
+
+
+def cayley(env, q):
+    """rotation matrix of the Gibbs vector q = tan(theta/2) n: every rotation except half turns, rational in q"""
+    qq = (q * q).sum()
+    Kx = np.array([[0 * q[0], -q[2], q[1]], [q[2], 0 * q[0], -q[0]], [-q[1], q[0], 0 * q[0]]], dtype=object if env.sym else float)
+    qqT = np.array([[q[i] * q[j] for j in range(3)] for i in range(3)], dtype=object if env.sym else float)
+    return ((1 - qq) * np.eye(3) + 2 * qqT + 2 * Kx) / (1 + qq)
+
+
+def blockrot(env, R, n):
+    T = np.empty((3 * n, 3 * n), dtype=object if env.sym else float)
+    T[...] = 0 * R[0, 0]
+    for k in range(n):
+        T[3 * k:3 * k + 3, 3 * k:3 * k + 3] = R
+    return T
+
+
+@job("c10.rotation", ("C10",), cfgs=[dict(ny=2, _tier=T), dict(ny=3, _tier=T)], ranges=R10 + ((r"^q\[", -0.5, 0.5), (r"^disp|^u\[", -0.2, 0.2)), cost=80)
+def rotation(env, ny):
+    """tube model (Iy = Iz): rotating structure and loads together rotates the response, for every rotation R (Cayley
+    parametrisation).  Modular chain over the real components: nodes(R mesh) = R nodes(mesh); element stiffness of the real
+    AssembleKGroup at rotated nodes = T K T^T with T = diag(R, R, R, R); right-hand side of rotated loads = rotated
+    right-hand side; the real FEM residual at (T K T^T, T u, T f) = T residual(K, u, f) (so the unique clamped solution
+    rotates); tube von Mises stresses at (R nodes, T u) are those at (nodes, u)."""
+    xp = env.xp
+    s = surface(name="wing", nx=2, ny=ny, symmetry=True, side="left")
+    q = env.var("q", (3,))
+    R = cayley(env, q)
+    env.eq("C10", "Cayley matrix is a rotation (R R^T == I)", matmul(env, R, R.T), np.eye(3))
+    rot = lambda v: matmul(env, np.asarray(v, dtype=object if env.sym else float).reshape(-1, 3), R.T).reshape(np.shape(v))
+    # (1) nodes
+    cn = env.comp("cn", lambda: cls("structures.compute_nodes.ComputeNodes")(surface=s))
+    mesh = env.var("mesh", s["mesh"].shape)
+    nodes = cn.compute(dict(mesh=mesh))["nodes"]
+    env.eq("C10", "rotation: structural nodes of the rotated mesh are the rotated nodes", cn.compute(dict(mesh=rot(mesh)))["nodes"], rot(nodes))
+    # (2) element stiffness through the real AssembleKGroup, Iy = Iz
+    g = gsx.GroupSX(env, lambda m: m.add_subsystem("k", cls("structures.assemble_k_group.AssembleKGroup")(surface=s), promotes=["*"]))
+    nd = env.var("nodes", (ny, 3))
+    A, I, J = env.var("A", (ny - 1,)), env.var("I", (ny - 1,)), env.var("J", (ny - 1,))
+    base = dict(nodes=nd, A=A, Iy=I, Iz=I, J=J)
+    T4 = blockrot(env, R, 4)
+    k1s, k2s = [], []
+    for path, (v1, v2) in env.explore(lambda: (g.run(dict(base)), g.run(dict(base, nodes=rot(nd))))):
+        tag = " @path(%d decisions)" % len(path) if path else ""
+        k1 = g.get(v1, "local_stiff_transformed")
+        k2 = g.get(v2, "local_stiff_transformed")
+        for e in range(ny - 1):
+            env.eq("C10", "rotation: element stiffness at rotated nodes == T K T^T (tube, Iy = Iz) [element %d]%s" % (e, tag),
+                   k2[e], matmul(env, matmul(env, T4, k1[e]), T4.T))
+    # (3) right-hand side
+    rhs = env.comp("rhs", lambda: cls("structures.create_rhs.CreateRHS")(surface=s))
+    env.indicator_branch = 0
+    env.indicator_only = core.tiny_load_mask
+    loads = env.var("total_loads", (ny, 6))
+    f1 = np.asarray(rhs.compute(dict(total_loads=loads))["forces"]).reshape(-1)
+    f2 = np.asarray(rhs.compute(dict(total_loads=rot(loads)))["forces"]).reshape(-1)
+    Tn = blockrot(env, R, 2 * ny + 2)
+    env.eq("C10", "rotation: right-hand side of the rotated loads == rotated right-hand side", f2, matmul(env, Tn, f1))
+    # (4) the real FEM residual (any element matrices K_e, displacements u, right-hand side f)
+    fem = env.comp("fem", lambda: cls("structures.fem.FEM")(surface=s))
+    Ke = env.var("local_stiff_transformed", (ny - 1, 12, 12))
+    u = env.var("u", (6 * ny + 6,))
+    f = env.var("forces", (6 * ny + 6,))
+    KeR = np.array([matmul(env, matmul(env, T4, Ke[e]), T4.T) for e in range(ny - 1)], dtype=object if env.sym else float)
+    r1 = np.asarray(fem.residual(dict(local_stiff_transformed=Ke, forces=f), dict(disp_aug=u))["disp_aug"]).reshape(-1)
+    r2 = np.asarray(fem.residual(dict(local_stiff_transformed=KeR, forces=matmul(env, Tn, f)), dict(disp_aug=matmul(env, Tn, u)))["disp_aug"]).reshape(-1)
+    env.eq("C10", "rotation: FEM residual at (T K T^T, T u, T f) == T residual(K, u, f): the clamped solution of the rotated problem is the rotated solution",
+           r2, matmul(env, Tn, r1))
+    env.assumptions.add("non-singular clamped stiffness matrix (uniqueness of the displacements)")
+    # (5) tube stresses are invariant
+    vm = env.comp("vm", lambda: cls("structures.vonmises_tube.VonMisesTube")(surface=s))
+    if env.sym:
+        env.use_helpers("structures_utils")
+    vin = vm.inputs()
+    o1 = vm.compute(vin)["vonmises"]
+    vin2 = dict(vin, nodes=rot(vin["nodes"]), disp=rot(vin["disp"]))
+    env.eq("C10", "rotation: tube von Mises stresses of the rotated structure and response are unchanged", vm.compute(vin2)["vonmises"], o1)
